@@ -119,7 +119,10 @@ def r2(ctx):
 
     def effect(res, pat, binds=None):
         for _, _, effs in res:
+            frozen = {e.targets[0].id: e.value for e in effs if isinstance(e, ast.Assign) and len(e.targets) == 1 and isinstance(e.targets[0], ast.Name)}
             for e in effs:
+                if frozen and not (isinstance(e, ast.Assign) and isinstance(e.targets[0], ast.Name)):
+                    e = sym.subst(e, frozen)   # bindings frozen by a later store into the state are written out again
                 b = sym.pm(pat, e, binds)
                 if b is not None:
                     return b
